@@ -69,6 +69,7 @@ def enrich(ds):
     ds['i_plain'] = xarray.DataArray(base.astype('int16'), dims=fdims, attrs={'long_name': 'integer without fill value'})
     ds['i_fill'] = xarray.DataArray(base.copy(), dims=fdims, attrs={'_FillValue': numpy.int32(-99), 'long_name': 'integer with _FillValue'})
     ds['i_missing'] = xarray.DataArray(base.astype('int64'), dims=fdims, attrs={'missing_value': numpy.int64(-1)})
+    ds['i_zero_fill'] = xarray.DataArray(base.astype('int32') + 1, dims=fdims, attrs={'_FillValue': numpy.int32(0), 'long_name': 'count, 0 = no data'})
     ds['f_last'] = xarray.DataArray((base * 0.5).reshape(shape + [1]).repeat(3, axis=-1) + numpy.arange(3) * 1000.0, dims=fdims + ['band'],
                                     attrs={'units': 'u'})
     ds['f_first'] = ds['f_last'].transpose('band', *fdims) + 0.25
